@@ -4093,7 +4093,12 @@ class DecAffine(Affine):
 
         expr = super().rsocone(y, z)
 
-        return DecConvex(expr, self.event_adapt)
+        event_adapt = self.event_adapt
+        for other in (y, z):
+            if isinstance(other, (DecVar, DecVarSub, DecAffine)):
+                event_adapt = comb_set(event_adapt, other.event_adapt)
+
+        return DecCvxConstr(expr, event_adapt)
 
     def sum(self, axis=None):
 
